@@ -117,6 +117,10 @@ func (c *lockCtx) callEvents(x *ast.CallExpr, out *[]lev) {
 			*out = append(*out, lev{kind: "param"})
 			return
 		}
+		if f.Name == "send" || f.Name == "recv" { // a frame written to / read from the connection
+			*out = append(*out, lev{kind: "access", a: "wire." + f.Name, b: f.Name + "Mu"})
+			return
+		}
 		if c.known[f.Name] {
 			e := lev{kind: "call", a: f.Name}
 			if closure != nil {
